@@ -16,7 +16,7 @@ func init() {
 		Doc: "at every construction &code{op:X, v:E} and every in-place rewrite of .op/.v in the compiler, the Go type of the operand is one the VM clause of X asserts",
 		Run: ruleC01Operand})
 	reg(&Rule{ID: "R-C01-calltriple", Props: []string{"C01", "C02", "C08"}, Floor: 12,
-		Doc: "every [3]any{f, n, name} operand is (func(any,[]any) any, int, string); names built from internalFuncs[K] equal K with n in K's arity mask; the VM's path-tracked name set equals compileCall's indexing set",
+		Doc: "every [3]any{f, n, name} operand is (func(any,[]any) any, int, string); names built from internalFuncs[K] equal K with n in K's arity mask; every native the VM records a path for is compiled by compileCall with its key arguments bracketed (indexing >= 0)",
 		Run: ruleC01CallTriple})
 	reg(&Rule{ID: "R-C01-closers", Props: []string{"C01", "C08"}, Floor: 30,
 		Doc: "the result of every newScopeDepth(), lazy() and appendBuiltin() is invoked (deferred, or called on every path that does not return a non-nil error)",
